@@ -8,7 +8,10 @@ package c17
 import (
 	. "kavaverif/lib"
 
+	"math/big"
 	"strings"
+
+	sdk "github.com/cosmos/cosmos-sdk/types"
 )
 
 type c17Gen struct {
@@ -46,7 +49,7 @@ func (g *c17Gen) staleUpgradeScript() []c17Op {
 	var cands []c17Com
 	for _, id := range g.comIDs() {
 		c := w.coms[id]
-		if c.Token || c.Duration < 10 {
+		if c.Token || c.Duration < 10*c17Sec {
 			continue
 		}
 		for _, pm := range c.Perms {
@@ -70,12 +73,12 @@ func (g *c17Gen) staleUpgradeScript() []c17Op {
 	for _, m := range c.Members {
 		votes = append(votes, c17Op{Kind: "vote", Pid: pid, A: m, Vt: 1})
 	}
-	blocks := []c17Op{{Kind: "begin", T: w.now + 1}, {Kind: "begin", T: w.now + 2}, {Kind: "begin", T: w.now + 3}}
+	blocks := []c17Op{{Kind: "begin", T: w.now + c17Sec}, {Kind: "begin", T: w.now + 2*c17Sec}, {Kind: "begin", T: w.now + 3*c17Sec}}
 	if c.FPTP {
 		// nobody votes for three blocks, then everybody does: decided at the next block
 		ops = append(ops, blocks...)
 		ops = append(ops, votes...)
-		ops = append(ops, c17Op{Kind: "begin", T: w.now + 4})
+		ops = append(ops, c17Op{Kind: "begin", T: w.now + 4*c17Sec})
 	} else {
 		// everybody votes at once; the decision waits for the deadline
 		ops = append(ops, votes...)
@@ -141,7 +144,7 @@ func (g *c17Gen) communityScript() []c17Op {
 			ops = append(ops, c17Op{Kind: "vote", Pid: pid + 1, A: m, Vt: 1})
 		}
 	}
-	ops = append(ops, c17Op{Kind: "begin", T: w.now + 1})
+	ops = append(ops, c17Op{Kind: "begin", T: w.now + c17Sec})
 	if !c.FPTP {
 		ops = append(ops, c17Op{Kind: "begin", T: w.now + c.Duration})
 	}
@@ -195,7 +198,7 @@ func (g *c17Gen) movedParamScript(prev *c17Snap) []c17Op {
 	for _, m := range c.Members {
 		ops = append(ops, c17Op{Kind: "vote", Pid: pid, A: m, Vt: 1})
 	}
-	ops = append(ops, c17Op{Kind: "begin", T: w.now + 1})
+	ops = append(ops, c17Op{Kind: "begin", T: w.now + c17Sec})
 	if !c.FPTP {
 		ops = append(ops, c17Op{Kind: "begin", T: w.now + c.Duration})
 	}
@@ -314,6 +317,16 @@ func pick[T any](r *Rng, xs []T) T { return xs[r.Intn(len(xs))] }
 func c17GenSetup(r *Rng) c17Setup {
 	s := c17Setup{IncActive: r.Chance(1, 10), RefAssetSet: r.Chance(1, 2), EmptyAssets: r.Chance(1, 40), XrpbCoinZero: r.Chance(1, 2),
 		PoolFunded: r.Chance(85, 100), HardDeposit: r.Chance(80, 100), Cdp: r.Chance(85, 100)}
+	// tally-denom balances: the default thousand, or supplies that thirds, sixths and sevenths divide exactly
+	switch r.Pick(40, 25, 20, 15) {
+	case 1:
+		s.Bals = []int64{1_000_000, 600_000, 400_000, 500_000, 0, 500_000} // 3 000 000
+	case 2:
+		s.Bals = []int64{1_400_000, 700_000, 600_000, 100_000, 0, 1_400_000} // 4 200 000
+	case 3:
+		s.Bals = []int64{7, 14, 21, 0, 0, 0} // 42
+	}
+	sec := c17Sec
 	perms := func(god bool) []c17Perm {
 		if god {
 			return []c17Perm{{Kind: "god"}}
@@ -324,6 +337,14 @@ func c17GenSetup(r *Rng) c17Setup {
 		}
 		if r.Chance(7, 10) {
 			ps = append([]c17Perm{{Kind: "other"}}, ps...) // SoftwareUpgradePermission
+		}
+		if r.Chance(1, 4) {
+			// everything allowed for a scalar parameter whose validator dereferences a nil Int / Dec
+			for i := range ps {
+				if ps[i].Kind == "params" {
+					ps[i].ACs = append(append([]c17AC(nil), ps[i].ACs...), c17AC{P: -3 - r.Intn(2)})
+				}
+			}
 		}
 		// the three x/community permissions, alone and in combinations, before or after the others
 		for _, k := range []string{"cdprepay", "cdpwithdraw", "lendwithdraw"} {
@@ -349,13 +370,20 @@ func c17GenSetup(r *Rng) c17Setup {
 		return ps
 	}
 	s.Coms = []c17Com{
-		{ID: 1, Members: []int{0, 1, 2}, Perms: perms(false), Threshold: pick(r, []string{"0.5", "0.667", "1.0", "0.34"}), Duration: pick(r, []int64{50, 100, 200, 0}), FPTP: r.Chance(6, 10)},
-		{ID: 2, Members: []int{0, 1, 2, 3}, Perms: perms(r.Chance(1, 3)), Threshold: pick(r, []string{"0.5", "0.75", "0.25"}), Duration: pick(r, []int64{40, 100}), FPTP: r.Chance(2, 10)},
-		{ID: 3, Token: true, Quorum: pick(r, []string{"0.4", "0.3", "0.0", "0.65"}), Members: []int{0, 5}, Perms: append(perms(false), c17Perm{Kind: "text"}),
-			Threshold: pick(r, []string{"0.5", "0.75", "0.6"}), Duration: pick(r, []int64{60, 100}), FPTP: r.Chance(5, 10)},
+		{ID: 1, Members: []int{0, 1, 2}, Perms: perms(false), Threshold: pick(r, []string{"0.5", "0.667", "1.0", "0.34", "0.666666666666666667", "0.333333333333333333"}),
+			Duration: pick(r, []int64{50 * sec, 100 * sec, 200 * sec, 0, 50*sec + sec/2, 100*sec + 1}), FPTP: r.Chance(6, 10)},
+		{ID: 2, Members: []int{0, 1, 2, 3}, Perms: perms(r.Chance(1, 3)), Threshold: pick(r, []string{"0.5", "0.75", "0.25", "0.666666666666666667"}),
+			Duration: pick(r, []int64{40 * sec, 100 * sec, 40*sec + sec/4}), FPTP: r.Chance(2, 10)},
+		{ID: 3, Token: true, Quorum: pick(r, c17Quorums), Members: []int{0, 5}, Perms: append(perms(false), c17Perm{Kind: "text"}),
+			Threshold: pick(r, c17TokenThresholds), Duration: pick(r, []int64{60 * sec, 100 * sec, 60*sec + sec/2}), FPTP: r.Chance(5, 10)},
 	}
 	return s
 }
+
+// quorums and thresholds: short decimals and the 18-digit roundings of 1/3, 2/3, 1/6, 5/6, 1/7, 6/7
+// (LegacyDec rounds half to even: 2/3, 1/6 and 6/7 are rounded up, the others down)
+var c17Quorums = []string{"0.4", "0.3", "0.0", "0.65", "0.666666666666666667", "0.666666666666666667", "0.333333333333333333", "0.166666666666666667", "0.142857142857142857", "0.857142857142857143"}
+var c17TokenThresholds = []string{"0.5", "0.75", "0.6", "0.666666666666666667", "0.333333333333333333", "0.833333333333333333", "0.142857142857142857"}
 
 // ------------------------------------------------------------ documents
 
@@ -608,6 +636,9 @@ func (g *c17Gen) mutateRecord(rec *jnode, sch []fieldInfo, attrs []string, noisy
 // genDoc derives a proposed value for a slot from its stored value.
 func (g *c17Gen) genDoc(slot int, perm *c17Perm, prev *c17Snap) string {
 	r := g.r
+	if slot <= -3 {
+		return "null" // the scalar parameters are only ever proposed as null: a nil Int / Dec, on which the registered validator panics
+	}
 	if slot < 0 {
 		return pick(r, []string{`{"x":"1"}`, `[{"x":"1"}]`, `"5"`, `{`, `null`})
 	}
@@ -855,7 +886,46 @@ func (g *c17Gen) comIDs() []int {
 	return ids
 }
 
+// The model has one case (PNoKey) for every (subspace, key) on which Subspace.Update panics: the
+// unregistered key -2 and the two null-valued scalars -3, -4.  An operation that brings two
+// different ones of them together (a rule for one, a change of another) would be rendered
+// ambiguously; the generators never build one, and genOp makes sure of it.
+func ambiguousNoKey(perms []c17Perm, c *c17Content) bool {
+	if c == nil {
+		return false
+	}
+	for _, ch := range c.Changes {
+		if ch.P > -2 {
+			continue
+		}
+		for _, pm := range perms {
+			for _, ac := range pm.ACs {
+				if ac.P <= -2 && ac.P != ch.P {
+					return true
+				}
+			}
+		}
+	}
+	return false
+}
+
 func (g *c17Gen) genOp(prev *c17Snap) c17Op {
+	for {
+		op := g.genOp0(prev)
+		var perms []c17Perm
+		switch op.Kind {
+		case "allows":
+			perms = []c17Perm{*op.Perm}
+		case "submit":
+			perms = g.w.coms[op.Com].Perms
+		}
+		if !ambiguousNoKey(perms, op.Content) {
+			return op
+		}
+	}
+}
+
+func (g *c17Gen) genOp0(prev *c17Snap) c17Op {
 	r := g.r
 	w := g.w
 	if len(g.script) == 0 && r.Chance(4, 100) {
@@ -866,6 +936,15 @@ func (g *c17Gen) genOp(prev *c17Snap) c17Op {
 	}
 	if len(g.script) == 0 && r.Chance(3, 100) {
 		g.script = g.movedParamScript(prev)
+	}
+	if len(g.script) == 0 && r.Chance(6, 100) {
+		g.script = g.tallyEdgeScript(prev)
+	}
+	if len(g.script) == 0 && r.Chance(5, 100) {
+		g.script = g.deadlineEdgeScript(prev)
+	}
+	if len(g.script) == 0 && r.Chance(3, 100) {
+		g.script = g.nilValueScript(prev)
 	}
 	if len(g.script) > 0 {
 		op := g.script[0]
@@ -1009,38 +1088,42 @@ func (g *c17Gen) genOp(prev *c17Snap) c17Op {
 		}
 		return op
 	case 4:
-		dt := int64(1 + r.Intn(15))
-		if len(pending) > 0 && r.Chance(45, 100) {
-			// land on a deadline, one second before, or one second after
+		// whole seconds, or a block time with a nanosecond part (so that deadlines get one too)
+		dt := int64(1+r.Intn(15))*c17Sec + pick(r, []int64{0, 0, 0, 0, c17Sec / 2, c17Sec / 10, 999_999_999, 1, int64(r.Intn(1_000_000_000))})
+		if r.Chance(1, 10) {
+			dt -= (w.now + dt) % c17Sec // back onto a whole second
+		}
+		if len(pending) > 0 && r.Chance(50, 100) {
+			// land on a deadline, or just before / after it: 0.4 s, 1 ns, 1 s
 			p := pick(r, pending)
-			target := p[2] + int64(r.Intn(3)-1)
+			target := p[2] + pick(r, []int64{0, 0, -1, 1, -4 * c17Sec / 10, -4 * c17Sec / 10, -c17Sec, c17Sec, -999_999_999})
 			if target > w.now {
 				dt = target - w.now
 			}
 		}
 		return c17Op{Kind: "begin", T: w.now + dt}
 	case 5:
-		return c17Op{Kind: "transfer", A: r.Intn(c17NAcc), B: r.Intn(c17NAcc), X: int64(pick(r, []int{1, 10, 50, 100, 300, 1000, 0}))}
+		return c17Op{Kind: "transfer", A: r.Intn(c17NAcc), B: r.Intn(c17NAcc), X: int64(pick(r, []int{1, 1, 10, 50, 100, 300, 1000, 0, 100_000, 7}))}
 	case 6:
 		var c c17Com
 		if len(ids) > 0 && r.Chance(80, 100) {
 			c = w.coms[pick(r, ids)]
 			c.Perms = append([]c17Perm(nil), c.Perms...)
 		} else {
-			c = c17Com{ID: 4, Members: []int{1, 4}, Perms: []c17Perm{c17GenPerm(r, false)}, Threshold: "0.5", Duration: 80, FPTP: true}
+			c = c17Com{ID: 4, Members: []int{1, 4}, Perms: []c17Perm{c17GenPerm(r, false)}, Threshold: "0.5", Duration: 80 * c17Sec, FPTP: true}
 		}
 		switch r.Intn(6) {
 		case 0:
 			c.Perms = []c17Perm{c17GenPerm(r, false)}
 		case 1:
-			c.Threshold = pick(r, []string{"0.5", "1.0", "0.25"})
+			c.Threshold = pick(r, []string{"0.5", "1.0", "0.25", "0.666666666666666667", "0.333333333333333333"})
 		case 2:
 			c.Members = pick(r, [][]int{{0}, {0, 1, 2, 3, 4}, {3, 4}})
 		case 3:
 			c.FPTP = !c.FPTP
 		case 4: // member <-> token
 			c.Token = !c.Token
-			c.Quorum = "0.3"
+			c.Quorum = pick(r, c17Quorums)
 		default:
 			if r.Chance(1, 2) {
 				c.Threshold = "0.0" // invalid
@@ -1052,4 +1135,348 @@ func (g *c17Gen) genOp(prev *c17Snap) c17Op {
 	default:
 		return c17Op{Kind: "delcom", Com: 1 + r.Intn(4)}
 	}
+}
+
+// ------------------------------------------------------------ directed scenarios of the third round
+
+// acceptableContent: a proposal the committee can submit now (tried on a copy of the state)
+func (g *c17Gen) acceptableContent(c c17Com, prev *c17Snap) *c17Content {
+	w := g.w
+	if anyTypeAllows(c.Perms, "text") && g.r.Chance(2, 3) {
+		return &c17Content{Kind: "text"}
+	}
+	for try := 0; try < 12; try++ {
+		var cand *c17Content
+		if try == 0 && anyTypeAllows(c.Perms, "text") {
+			cand = &c17Content{Kind: "text"}
+		} else if try == 1 && anyTypeAllows(c.Perms, "upgrade") {
+			cand = &c17Content{Kind: "upgrade", H: w.height + 1000}
+		} else {
+			cand = g.genContent0(firstParamsPerm(c), prev)
+		}
+		if cand.Kind == "cchange" || cand.Kind == "lenddeposit" || cand.Kind == "poolspend" {
+			continue
+		}
+		ok := false
+		func() {
+			defer func() { _ = recover() }()
+			cctx, _ := w.ctx.CacheContext()
+			content := w.goContent(*cand)
+			ok = w.goCom(c).HasPermissionsFor(cctx, w.tApp.AppCodec(), w.tApp.GetParamsKeeper(), content) && w.k.ValidatePubProposal(cctx, content) == nil
+		}()
+		if ok {
+			return cand
+		}
+	}
+	return nil
+}
+
+// transfersTo: bank sends that take the tally-denom balances from cur to want (same total)
+func transfersTo(cur, want []int64) []c17Op {
+	have := append([]int64(nil), cur...)
+	var ops []c17Op
+	for to := range want {
+		for from := range want {
+			if have[to] >= want[to] {
+				break
+			}
+			if from == to || have[from] <= want[from] {
+				continue
+			}
+			x := have[from] - want[from]
+			if d := want[to] - have[to]; d < x {
+				x = d
+			}
+			ops = append(ops, c17Op{Kind: "transfer", A: from, B: to, X: x})
+			have[from] -= x
+			have[to] += x
+		}
+	}
+	return ops
+}
+
+// ceilFrac: the least integer x with x >= (num/den) * y
+func ceilFrac(num, den *big.Int, y int64) int64 {
+	p := new(big.Int).Mul(num, big.NewInt(y))
+	q, m := new(big.Int).QuoRem(p, den, new(big.Int))
+	if m.Sign() > 0 {
+		q.Add(q, big.NewInt(1))
+	}
+	return q.Int64()
+}
+
+// tallyEdgeScript: a token-committee vote whose turnout lands on the least amount that meets
+// the quorum, or one unit beside it, and whose yes share lands on the least amount that meets
+// the threshold, or one unit beside it.  Balances are arranged by bank sends beforehand; one
+// more unit may move between the votes and the tally (balances count at tally time).
+func (g *c17Gen) tallyEdgeScript(prev *c17Snap) []c17Op {
+	w, r := g.w, g.r
+	var cands []c17Com
+	for _, id := range g.comIDs() {
+		c := w.coms[id]
+		if c.Token && anyTypeAllows(c.Perms, "text") && len(c.Members) > 0 {
+			cands = append(cands, c)
+		}
+	}
+	S := prev.supply
+	if len(cands) == 0 || S <= 0 || len(prev.bals) != c17NAcc {
+		return nil
+	}
+	var sum int64
+	for _, b := range prev.bals {
+		sum += b
+	}
+	if sum != S {
+		return nil
+	}
+	// one unit below the least turnout that meets the quorum, where the turnout ratio rounded to
+	// 18 decimals equals the quorum all the same (quorum 2/3 rounded up, supply a multiple of 3, ...)
+	withinRounding := func(c c17Com) bool {
+		qn, qd := fracOf(c.Quorum)
+		t := ceilFrac(qn, qd, S) - 1
+		return t >= 1 && sdk.NewDec(t).Quo(sdk.NewDec(S)).GTE(dec(c.Quorum))
+	}
+	c := pick(r, cands)
+	for _, x := range cands {
+		if withinRounding(x) && r.Chance(2, 3) {
+			c = x
+		}
+	}
+	qn, qd := fracOf(c.Quorum)
+	tn, td := fracOf(c.Threshold)
+	critical := withinRounding(c) && r.Chance(2, 3)
+	clamp := func(x, lo, hi int64) int64 {
+		if x < lo {
+			return lo
+		}
+		if x > hi {
+			return hi
+		}
+		return x
+	}
+	turnout := clamp(ceilFrac(qn, qd, S)+pick(r, []int64{-1, -1, 0, 0, 1}), 1, S)
+	abstain := pick(r, []int64{0, 0, turnout / 10})
+	nonAbstain := turnout - abstain
+	yes := clamp(ceilFrac(tn, td, nonAbstain)+pick(r, []int64{-1, 0, 0, 0, 1}), 0, nonAbstain)
+	if critical {
+		// the quorum is missed by less than the rounding of the ratio; the threshold is met
+		turnout = ceilFrac(qn, qd, S) - 1
+		abstain = pick(r, []int64{0, turnout / 10})
+		nonAbstain = turnout - abstain
+		yes = clamp(ceilFrac(tn, td, nonAbstain)+pick(r, []int64{0, 0, 1}), 0, nonAbstain)
+	}
+	no := nonAbstain - yes
+	// voters: three accounts in a random order; a fourth keeps the rest of the supply
+	acc := []int{0, 1, 2, 3, 4, 5}
+	for i := len(acc) - 1; i > 0; i-- {
+		j := r.Intn(i + 1)
+		acc[i], acc[j] = acc[j], acc[i]
+	}
+	want := make([]int64, c17NAcc)
+	want[acc[0]], want[acc[1]], want[acc[2]], want[acc[3]] = yes, no, abstain, S-turnout
+	ops := transfersTo(prev.bals, want)
+	if len(ops) > 8 {
+		return nil
+	}
+	pid := w.nextPid
+	ops = append(ops, c17Op{Kind: "submit", Com: c.ID, A: c.Members[0], Content: &c17Content{Kind: "text"}})
+	ops = append(ops, c17Op{Kind: "vote", Pid: pid, A: acc[0], Vt: 1})
+	if no > 0 || r.Chance(1, 3) {
+		ops = append(ops, c17Op{Kind: "vote", Pid: pid, A: acc[1], Vt: 2})
+	}
+	if abstain > 0 {
+		ops = append(ops, c17Op{Kind: "vote", Pid: pid, A: acc[2], Vt: 3})
+	}
+	after := r.Pick(70, 15, 15)
+	if critical {
+		after = 0
+	}
+	switch after { // one unit into or out of the turnout after the votes
+	case 1:
+		if want[acc[3]] > 0 {
+			ops = append(ops, c17Op{Kind: "transfer", A: acc[3], B: acc[0], X: 1})
+		}
+	case 2:
+		if yes > 0 {
+			ops = append(ops, c17Op{Kind: "transfer", A: acc[0], B: acc[3], X: 1})
+		}
+	}
+	ops = append(ops, c17Op{Kind: "begin", T: w.now + c17Sec})
+	if !c.FPTP {
+		ops = append(ops, c17Op{Kind: "begin", T: w.now + c.Duration})
+	}
+	if g.cnt != nil {
+		g.cnt.Inc("split:script:tally-edge")
+	}
+	return ops
+}
+
+// deadlineEdgeScript: a proposal whose deadline has a sub-second part, blocks 0.4 s and 1 ns
+// before the deadline (same unix second: the proposal stays open and that block's votes
+// count), a block on the deadline (closed; votes refused) and one 1 ns later.
+func (g *c17Gen) deadlineEdgeScript(prev *c17Snap) []c17Op {
+	w, r := g.w, g.r
+	ids := g.comIDs()
+	if len(ids) == 0 {
+		return nil
+	}
+	c := w.coms[pick(r, ids)]
+	if len(c.Members) == 0 || c.Duration < 2*c17Sec {
+		return nil
+	}
+	content := g.acceptableContent(c, prev)
+	if content == nil {
+		return nil
+	}
+	var ops []c17Op
+	now := w.now
+	if (now+c.Duration)%c17Sec == 0 || r.Chance(1, 4) {
+		now += c17Sec + pick(r, []int64{c17Sec / 2, c17Sec / 2, c17Sec / 10, 999_999_999, 400_000_001, int64(1 + r.Intn(999_999_999))})
+		ops = append(ops, c17Op{Kind: "begin", T: now})
+	}
+	deadline := now + c.Duration
+	pid := w.nextPid
+	ops = append(ops, c17Op{Kind: "submit", Com: c.ID, A: c.Members[0], Content: content})
+	voters := append([]int(nil), c.Members...)
+	if c.Token {
+		voters = []int{0, 1, 2, 3, 5}
+	}
+	for i := len(voters) - 1; i > 0; i-- {
+		j := r.Intn(i + 1)
+		voters[i], voters[j] = voters[j], voters[i]
+	}
+	next := 0
+	vote := func() {
+		v := voters[next%len(voters)]
+		next++
+		vt := 1
+		if c.Token && r.Chance(1, 4) {
+			vt = 2 + r.Intn(2)
+		}
+		ops = append(ops, c17Op{Kind: "vote", Pid: pid, A: v, Vt: vt})
+	}
+	for k := r.Intn(len(voters)); k > 0; k-- {
+		vote()
+	}
+	for _, off := range []int64{-4 * c17Sec / 10, -1} {
+		if r.Chance(3, 4) && deadline+off > now {
+			ops = append(ops, c17Op{Kind: "begin", T: deadline + off})
+			vote()
+		}
+	}
+	ops = append(ops, c17Op{Kind: "begin", T: deadline})
+	vote()
+	if r.Chance(1, 3) {
+		ops = append(ops, c17Op{Kind: "begin", T: deadline + 1})
+	}
+	if g.cnt != nil {
+		g.cnt.Inc("split:script:deadline-edge")
+	}
+	return ops
+}
+
+// fields whose registered validator dereferences a nil Int / Dec (a runtime error, not a string panic)
+var nilPanicAttrs = map[int][]string{
+	0: {"fixed_fee", "min_swap_amount", "max_swap_amount", "supply_limit"},
+	1: {"liquidation_penalty", "auction_size", "stability_fee", "keeper_reward_percentage", "check_collateralization_index_count"},
+}
+
+// nilValueScript: a parameter change the committee's permissions allow and whose handler
+// panics with a runtime error: JSON null for an Int / Dec field of a record (or a dropped
+// non-omitempty key, which amino zeroes) or for a whole scalar parameter.  It must be
+// refused at submission; were it stored, every member votes and the begin blocker must
+// close it Invalid without panicking.
+func (g *c17Gen) nilValueScript(prev *c17Snap) []c17Op {
+	w, r := g.w, g.r
+	type cand struct {
+		c   c17Com
+		chg c17Change
+	}
+	var cands []cand
+	for _, id := range g.comIDs() {
+		c := w.coms[id]
+		if c.Token {
+			continue
+		}
+		god := false
+		for _, pm := range c.Perms {
+			if pm.Kind == "god" {
+				god = true
+			}
+			if pm.Kind != "params" {
+				continue
+			}
+			for _, ac := range pm.ACs {
+				if ac.P <= -3 && len(ac.Single) == 0 && len(ac.Multi) == 0 {
+					cands = append(cands, cand{c, c17Change{ac.P, "null"}})
+				}
+			}
+		}
+		if god {
+			cands = append(cands, cand{c, c17Change{-3 - r.Intn(2), "null"}})
+		}
+		for slot := 0; slot <= 1; slot++ {
+			cur, err := parseJSON([]byte(prev.raws[slot]))
+			if err != nil || cur.K != 'a' {
+				continue
+			}
+			all, _, reqs := allowedFor(c.Perms, slot)
+			for i, rec := range cur.A {
+				if rec.K != 'o' {
+					continue
+				}
+				for _, a := range nilPanicAttrs[slot] {
+					allowed := all
+					for _, q := range reqs {
+						if v := rec.get(q.Key); v != nil && v.K == 's' && v.S == q.Val {
+							for _, x := range q.Attrs {
+								allowed = allowed || x == a
+							}
+						}
+					}
+					if !allowed || rec.get(a) == nil {
+						continue
+					}
+					doc := cur.clone()
+					if r.Chance(3, 4) {
+						setKey(doc.A[i], a, jNull())
+					} else if all {
+						dropKey(doc.A[i], a) // the lengths differ: only a rule-free permission lets this through
+					} else {
+						setKey(doc.A[i], a, jNull())
+					}
+					cands = append(cands, cand{c, c17Change{slot, doc.text()}})
+				}
+			}
+		}
+	}
+	if len(cands) == 0 {
+		return nil
+	}
+	x := pick(r, cands)
+	var scalars []cand
+	for _, y := range cands {
+		if y.chg.P <= -3 {
+			scalars = append(scalars, y)
+		}
+	}
+	if len(scalars) > 0 && r.Chance(1, 2) {
+		x = pick(r, scalars)
+	}
+	pid := w.nextPid
+	ops := []c17Op{{Kind: "submit", Com: x.c.ID, A: x.c.Members[0], Content: &c17Content{Kind: "param", Changes: []c17Change{x.chg}}}}
+	for _, m := range x.c.Members {
+		ops = append(ops, c17Op{Kind: "vote", Pid: pid, A: m, Vt: 1})
+	}
+	ops = append(ops, c17Op{Kind: "begin", T: w.now + c17Sec})
+	if !x.c.FPTP {
+		ops = append(ops, c17Op{Kind: "begin", T: w.now + x.c.Duration})
+	}
+	if g.cnt != nil {
+		g.cnt.Inc("split:script:nil-value")
+		if x.chg.P <= -3 {
+			g.cnt.Inc("split:script:nil-value-scalar")
+		}
+	}
+	return ops
 }
